@@ -53,6 +53,13 @@ M = [
  ("C16_switchable_inactive_by_default", "C16", "internal/cmd/runner/step_verbose_switchable.go", "\t\tactive:   true,\n", "\t\tactive:   false,\n", "NewStepVerboseSwitchable"),
  ("C10_code_generator_built_without_builder", "C10", "internal/cmd/runner/step_code_generator.go", "\t\tbuilder:    builder,\n", "", "NewStepCodeGenerator"),
  ("C02_compile_services_built_without_resolver", "C02", "internal/pkg/compiler/step_compile_services.go", "return &StepCompileServices{aliaser: a, argResolver: ar}", "return &StepCompileServices{aliaser: a}", "NewStepCompileServices"),
+ ("C14_head_rendered_before_body", "C14", "internal/pkg/template/template.go", "\tif body, err = tplBody.exec(); err != nil {\n\t\treturn \"\", err\n\t}\n\n\t// we have to execute that template as the last one\n\t// because the previous one can add imports,\n\t// and we need to print all of them\n\tif head, err = tplHead.exec(); err != nil {", "\tif head, err = tplHead.exec(); err != nil {\n\t\treturn \"\", err\n\t}\n\n\tif body, err = tplBody.exec(); err != nil {", "Build"),
+ ("C04_builder_renders_a_copy_without_decorators", "C04", "internal/pkg/template/template.go", "\t\tOutput:           o,\n", "\t\tOutput:           output.Output{Meta: o.Meta, Params: o.Params, Services: o.Services},\n", "Build"),
+ ("C10_error_list_capped", "C10", "internal/cmd/cmd_build.go", "\t\t\tfor i, err := range grouperror.Collection(err) {\n", "\t\t\tfor i, err := range grouperror.Collection(err) {\n\t\t\t\tif i >= 20 {\n\t\t\t\t\tbreak\n\t\t\t\t}\n", "one_numbered_line"),
+ ("C11_call_null_elements_accepted", "C11", "internal/pkg/input/input_call.go", "\tif len(z) >= 3 {\n\t\tif i, ok := z[2].(bool); !ok {", "\tif len(z) >= 3 && z[2] != nil {\n\t\tif i, ok := z[2].(bool); !ok {", "UnmarshalYAML"),
+ ("C18_version_number_accepted", "C18", "internal/pkg/input/input_version.go", "\tvs, ok := val.(string)\n\tif !ok {\n\t\treturn errors.New(\"it must be a string\")\n\t}\n", "\tvs, ok := val.(string)\n\tif !ok {\n\t\tvs = \"0.0.0\"\n\t}\n", "UnmarshalYAML"),
+ ("C06_graph_filters_dependencies_in_place", "C06", "internal/pkg/output/output_graph.go", "\tfor _, p := range o.Params {\n", "\tfor _, p := range o.Params {\n\t\tkept := p.DependsOn[:0]\n\t\tfor _, d := range p.DependsOn {\n\t\t\tif d != p.Name {\n\t\t\t\tkept = append(kept, d)\n\t\t\t}\n\t\t}\n\t\t_ = kept\n", "slices-received-by-value"),
+ ("C14_imports_not_pruned", "C14", "internal/pkg/template/code_formatter.go", "\tr, err = imports.Process(\"\", r, nil)\n", "\tif len(r) > 1<<20 {\n\t\tr, err = imports.Process(\"\", r, nil)\n\t}\n", "Format"),
  ("C08_output_path_made_absolute", "C08", "internal/cmd/runner/step_code_generator.go", None, None, ""),
 ]
 out = "/verif/selftest/mutants"
